@@ -48,6 +48,13 @@ def sh(cmd, cwd=None, env=None, timeout=None, check=True, capture=True):
     return p
 
 
+def _ev_of(line):
+    try:
+        return json.loads(line).get("ev")
+    except Exception:
+        return None
+
+
 REJECT_RE = re.compile(r'^<<"REJECT", "([^"]+)", (\d+), (.*)>>$')
 DONE_RE = re.compile(r'^<<"DONE", (\d+), (\d+), (\d+)>>$')
 STATES_RE = re.compile(r'^(\d+) states generated, (\d+) distinct states found')
@@ -98,7 +105,7 @@ class Run:
 
     # ---------------------------------------------------------------- build
     def build(self, race=False):
-        bindir = os.path.join(WORK, "bin")
+        bindir = os.path.join(self.dir, "bin")   # per property: checks may run side by side
         os.makedirs(bindir, exist_ok=True)
         out = os.path.join(bindir, "lz-race" if race else "lz")
         hdir = os.path.join(VERIF, "harness")
@@ -283,8 +290,10 @@ class Run:
             for c in chunk:
                 lines += open(c, encoding="utf-8").read().splitlines()
             chunk = chunk[0]
+            pooled = True
         else:
             lines = open(chunk, encoding="utf-8").read().splitlines()
+            pooled = False
         out_lines = []
         expect = []          # (lineno, prefix)
         used = {}
@@ -316,7 +325,9 @@ class Run:
         for idx in range(last + 1):
             if idx in chosen:
                 out_lines.append(json.dumps(chosen[idx][0], ensure_ascii=False))
-                expect.append((idx + 1, chosen[idx][1]))
+                expect.append((len(out_lines), chosen[idx][1]))
+            elif pooled and _ev_of(lines[idx]) in mutators:
+                continue   # self-contained frames of the corrupted kinds: the untouched ones add nothing here
             else:
                 out_lines.append(lines[idx])
         path = chunk + ".neg"
